@@ -58,7 +58,7 @@ if not skip:
         sh('git -C /repo worktree remove --force %s' % wt)
 # run the checks against a scratch worktree of /repo (HEAD) with the patch applied;
 # /repo itself and /verif/evidence stay untouched (GOCV_REPO / GOCV_OUT)
-tag = os.path.basename(os.path.dirname(mdir.rstrip('/'))) + '_' + os.path.basename(mdir.rstrip('/'))
+tag = prop + '_' + os.path.basename(mdir.rstrip('/'))
 ev = '/tmp/ev_' + tag
 outdir = '/tmp/evout_' + tag
 sh('git -C /repo worktree remove --force %s' % ev)
